@@ -16,6 +16,7 @@ RULE = ("block level: (l_a, l_b) in 0..4 x 0..4 enumerated; every order triple w
         "spread over the cases, in shuffled lists of 1-6 triples with repeats); origins on a centre, off centre, far "
         "away; basis level 1-4 shells cart/sph/mixed with/without transform; tolerance 1e-9 of the largest element "
         "of the same order slice (min 1e-9); distinct by input hash")
+RULE += " HISTORY stream (the returned value depends only on the arguments): basis-level shells carry the atom index (icenter; shells sharing a centre share it); every 2nd generated basis (quick; every 4th thorough; with a transform only bases of 1-2 shells) and every 5th same-centre pair is a GEOMETRY SCAN evaluated in one process: the same shells (exponents, coefficients, types, icenter) with the atoms displaced rigidly by k/16 bohr (one atom, or every atom by its own vector) at 1-2 further geometries, then the first geometry again; every call is compared with the exact model at its own geometry with the same tolerance (detail kind \"history\", the replay case contains the geometries; shrinking and replay evaluate every candidate sequence in a fresh process)"
 ASSUMPTIONS = ["'double-precision accuracy' is read as 1e-9 relative to the largest element of the order slice; rounding "
                "of the NumPy pipeline is not modelled"]
 ALL_ORDERS = list(itertools.product(range(5), repeat=3))
@@ -38,9 +39,23 @@ def _impl_int(case, gbasis, T):
 
 
 def _tol(model, case, res, level, *args):
+    """1e-9 x the natural magnitude of the slice: the largest element of the slice, or - when the slice is small or
+    vanishes by parity while the recursion's intermediate terms do not (a single diffuse shell, odd orders about its own
+    centre: exact value 0, terms ~ (1/2a)^(n/2) ~ 1e7) - the largest element of the moment whose orders are rounded up
+    to even numbers, which never vanishes by symmetry on the diagonal (Cauchy-Schwarz scale of the operator)."""
     arr = np.array(res, dtype=object)
     nd = arr.shape[-1]
     scale = [max(1.0, max(abs(float(x)) for x in arr[..., d].flat)) for d in range(nd)]
+    even = [[int(o) + int(o) % 2 for o in tr] for tr in case["orders"]]
+    if even != [list(map(int, tr)) for tr in case["orders"]]:
+        c2 = dict(case, orders=even)
+        if level == "block":
+            ev = model.call(KERNEL["block_cmd"](c2, *args))
+        else:
+            ev = model.call(KERNEL["int_cmd"](c2, *args))
+        earr = np.array(ev, dtype=object)
+        for d in range(nd):
+            scale[d] = max(scale[d], max(abs(float(x)) for x in earr[..., d].flat))
     return None, (lambda idx: 1e-9 * scale[idx[-1]])
 
 
@@ -147,4 +162,4 @@ def gen_cases(tier, seed):
 
 def run(rep, tier, seed, model, replay):
     cases = [replay["case"]] if replay is not None else gen_cases(tier, seed)
-    run_cases(rep, cases, eval_case, shrinkfn=twoindex.shrink_case)
+    run_cases(rep, cases, eval_case, shrinkfn=twoindex.shrink_case, isolate=True)
